@@ -113,13 +113,14 @@ static void applySet(Parameter &p, const J &s) {
     } else throw std::logic_error("harness: unsupported set type");
 }
 
+struct NoObject {};
 struct World {
     std::map<long long, std::unique_ptr<c3d> > objs;
     std::map<long long, Frame> callers;
     void reset() { objs.clear(); callers.clear(); }
     c3d &obj(long long k) {
         std::map<long long, std::unique_ptr<c3d> >::iterator it = objs.find(k);
-        if (it == objs.end()) throw std::logic_error("harness: no such object");
+        if (it == objs.end()) throw NoObject();
         return *it->second;
     }
 };
@@ -283,6 +284,8 @@ static long long execOp(World &w, const J &op, J &ev) {
         else if (name == "PutFile") { putFile(fullpath(op.at("path").s), op.at("bytes")); o = -1; }
         else if (name == "GetFile") { bool ok; J b = fileBytes(fullpath(op.at("path").s), ok); ev.set("bytes", b).set("exists", J(ok ? 1 : 0)); o = -1; }
         else throw std::logic_error("harness: unknown op " + name);
+    } catch (const NoObject &) {
+        out = "no_object";
     } catch (const std::logic_error &e) {
         if (!strncmp(e.what(), "harness:", 8)) { std::cerr << e.what() << std::endl; exit(3); }
         out = classify();
